@@ -2305,7 +2305,7 @@ func genC11(g *G, sc *Scenario, tier string, seed uint64) {
 	}
 	sc.Knobs["schedSeed"] = int64(g.r.Uint64() >> 1)
 	sc.Knobs["preemptPct"] = int64(g.PickInt([]int{5, 20, 40}))
-	if !focused && g.P(0.12) {
+	if !focused && g.P(0.22) {
 		// second focused variant: the sink (or source) dataset of a copy job disappears at some point of a run a
 		// client has started, and may come back
 		jt := g.Pick([]string{"fullsync", "fullsync", "incremental"})
@@ -2314,11 +2314,30 @@ func genC11(g *G, sc *Scenario, tier string, seed uint64) {
 		sc.Ops[len(sc.Ops)-njobs] = Op{K: "addJob", M: cfg}
 		var ents []Ent
 		for i := g.Range(2, 6); i > 0; i-- {
-			ents = append(ents, Ent{"id": fmt.Sprintf("%se%d", MkE, i), "props": map[string]any{MkS + "v": float64(g.Intn(1000))}, "refs": map[string]any{}})
+			ents = append(ents, Ent{"id": fmt.Sprintf("%sold%d", MkE, i), "props": map[string]any{MkS + "v": float64(g.Intn(1000))}, "refs": map[string]any{}})
 		}
 		sc.Ops = append([]Op{{K: "batch", DS: "dA", Ents: ents}}, sc.Ops...)
 		sc.Tasks[0] = append([]Op{{K: "runJob", S: "job1", DS: jt}}, sc.Tasks[0]...)
-		victim := g.Pick([]string{"dC", "dC", "dA"})
+		victim := g.Pick([]string{"dC", "dC", "dA", "dA"})
+		if victim == "dA" {
+			// (the focused job keeps its definition in this variant: the oracle is about what this copy job delivers)
+			for ti := range sc.Tasks {
+				var kept []Op
+				for _, op := range sc.Tasks[ti] {
+					if (op.K == "addJob" && fmt.Sprint(op.M["id"]) == "job1") || (op.K == "deleteJob" && op.S == "job1") {
+						continue
+					}
+					kept = append(kept, op)
+				}
+				sc.Tasks[ti] = kept
+			}
+			// the source goes away: from then on the run must not deliver what only the deleted dataset held
+			sc.Knobs["dropOracle"] = 1
+			cfg["batchSize"] = float64(1)
+			if g.P(0.6) {
+				cfg["source"].(map[string]any)["LatestOnly"] = true
+			}
+		}
 		drop := []Op{{K: "deleteDataset", DS: victim}}
 		if g.P(0.6) {
 			pts := []string{"pipeline.full.afterStart", "pipeline.full.afterBatch", "pipeline.full.afterBatch", "pipeline.full.beforeEnd"}
